@@ -116,8 +116,14 @@ def _weave_states_in_region(
     else:
         regions = [container]
 
+    blocks_woven = 0
     for region in regions:
         for block in region.blocks:
+            # the state is only known along straight-line code: a sibling region, or another block of
+            # the same region, can be entered without the code woven so far having been executed
+            if blocks_woven > 0:
+                state.clear()
+            blocks_woven += 1
             for op in block.ops:
                 # handle accfg.setup ops:
                 if isinstance(op, accfg.SetupOp):
@@ -273,6 +279,9 @@ def _weave_states_in_region(
                 elif has_accfg_effects(op):
                     state.clear()
 
+    # with several blocks there is no single "end of the container": nothing is known afterwards
+    if blocks_woven > 1:
+        state.clear()
     return state
 
 
